@@ -97,9 +97,12 @@ func (s *c24Sink) take() []string {
 
 type c24Collector struct{ sink *c24Sink }
 
-func (c *c24Collector) AddSpan(sp *types.Span) error         { c.sink.add("collector", sp.APIKey); return nil }
-func (c *c24Collector) AddSpanFromPeer(sp *types.Span) error { c.sink.add("collector", sp.APIKey); return nil }
-func (c *c24Collector) Stressed() bool                       { return false }
+func (c *c24Collector) AddSpan(sp *types.Span) error { c.sink.add("collector", sp.APIKey); return nil }
+func (c *c24Collector) AddSpanFromPeer(sp *types.Span) error {
+	c.sink.add("collector", sp.APIKey)
+	return nil
+}
+func (c *c24Collector) Stressed() bool { return false }
 func (c *c24Collector) GetStressedSampleRate(string) (uint, bool, string) {
 	return 1, true, ""
 }
